@@ -90,9 +90,17 @@ MkK(D, S, W, maxd, cd, kinds, pairs, bury, rev, mir, mode, empty) ==
   LET K0 == [D |-> D, S |-> S, W |-> W, maxd |-> maxd, cd |-> cd, kinds |-> kinds, pairs |-> pairs,
              bury |-> bury, rev |-> rev, mir |-> mir, mode |-> mode, empty |-> empty] IN
   [D |-> D, S |-> S, W |-> W, maxd |-> maxd, cd |-> cd, kinds |-> kinds, pairs |-> pairs,
-   bury |-> bury, rev |-> rev, mir |-> mir, mode |-> mode, empty |-> empty, crash |-> FALSE, tx |-> TxOf(K0)]
+   bury |-> bury, rev |-> rev, mir |-> mir, mode |-> mode, empty |-> empty, crash |-> FALSE,
+   markFirst |-> TRUE, dropOrphans |-> TRUE, tx |-> TxOf(K0)]
 \* the alphabet also contains the crash points inside new / setup / forget requests
 WithCrash(K0, c) == [f \in DOMAIN K0 |-> IF f = "crash" THEN c ELSE K0[f]]
+\* behaviour switches of the crash windows (spec/lifecycle_switches.json):
+\*   markFirst    forget_channel raises and persists the id mark BEFORE the forget flag (since /repo 773db50;
+\*                before: channel, tracker (flag), node (mark))
+\*   dropOrphans  a restore drops tracker listeners without a channel entry (since /repo a13aab7; before it
+\*                panicked, so that a setup_channel interrupted between its two writes left no signer)
+WithSwitches(K0, mf, dro) == [f \in DOMAIN K0 |-> IF f = "markFirst" THEN mf
+                                                  ELSE IF f = "dropOrphans" THEN dro ELSE K0[f]]
 
 \* block alphabet: single transactions, and pairs (creator first)
 Coherent(K, b) ==
@@ -264,25 +272,29 @@ Repeat(K, s, req, k) ==
 (*   new_channel           w1 new_channel (the stub)                        *)
 (*   setup_channel (stub)  w1 update_tracker (the new listener)             *)
 (*                         w2 update_channel (the entry becomes a channel)  *)
-(*     a store with the listener but without the channel cannot be restored *)
-(*     ("some chain tracker listeners were not restored"): rc "err", no     *)
-(*     signer afterwards                                                    *)
-(*   forget_channel (ready) w1 update_channel, w2 update_tracker (the       *)
-(*                         forget flag), w3 update_node (the mark, only     *)
-(*                         when it is raised)                               *)
+(*     ~K.dropOrphans: a store with the listener but without the channel    *)
+(*     cannot be restored: rc "err", no signer afterwards; K.dropOrphans:   *)
+(*     the restore drops the listener, the stub is still there              *)
+(*   forget_channel (ready) K.markFirst: w1 update_node (the mark, only     *)
+(*                         when it is raised), then update_channel,         *)
+(*                         update_tracker (the forget flag);                *)
+(*                         ~K.markFirst: channel, tracker, node             *)
 (*   forget_channel (stub)  w1 update_node (the mark, only when raised),    *)
 (*                         then delete_channel                              *)
 (***************************************************************************)
 NewCrash(K, s, d, k) == IF k = 0 THEN R("ok", s) ELSE R("ok", New(K, s, d).s)
 SetupCrash(K, s, d, k) ==
-  IF s.chans[d].ph = "stub" /\ k = 1 THEN R("err", s) ELSE R("ok", s)
+  IF s.chans[d].ph = "stub" /\ k = 1 /\ ~K.dropOrphans THEN R("err", s) ELSE R("ok", s)
 ForgetCrash(K, s, d, k) ==
   LET c == s.chans[d]
       m == Max2(s.mark, d)
-      raise == d > s.mark IN
+      raise == d > s.mark
+      \* number of durable writes after which the flag / the mark is durable
+      kflag == IF K.markFirst /\ raise THEN 3 ELSE 2
+      kmark == IF K.markFirst THEN 1 ELSE 3 IN
   CASE c.ph = "none"  -> R("ok", s)
-    [] c.ph = "ready" -> R("ok", [s EXCEPT !.chans[d].fg = IF k >= 2 THEN TRUE ELSE @,
-                                           !.mark = IF k >= 3 THEN m ELSE @])
+    [] c.ph = "ready" -> R("ok", [s EXCEPT !.chans[d].fg = IF k >= kflag THEN TRUE ELSE @,
+                                           !.mark = IF raise /\ k >= kmark THEN m ELSE @])
     [] c.ph = "stub"  -> IF raise
                          THEN R("ok", [s EXCEPT !.mark = IF k >= 1 THEN m ELSE @,
                                                 !.chans[d] = IF k >= 2 THEN NoChan ELSE @])
